@@ -43,4 +43,5 @@ def main(tier):
     chk.run("R-TYPEANNOT", FLW.typeannot, cx.repo, floor=14)
     chk.run("R-ONEOFGUARD", RR.oneofguard, cx.repo, floor=3, modules=("compiler/front_end/type_check.py",))
     chk.run("R-CANONNAME", RR.canonname, cx.repo, floor=1)
+    chk.run("R-PRECOND", FLW.precond, cx.repo, floor=3)
     return chk.finish()
